@@ -22,15 +22,15 @@ VDOM = (-1000, 1000, 0)
 def gen_items(rnd, depth, budget, top=False):
     items = []
     n = rnd.randint(1, 3 if not top else 4)
-    kinds = ["var_k", "var_j", "chain", "swap", "probe", "probe", "fwd", "g_k", "g0", "reuse", "reuse_e", "reuse_f", "g_h", "var_h", "loop", "if"]
+    kinds = ["var_k", "var_j", "chain", "swap", "probe", "probe", "fwd", "g_k", "g0", "reuse", "reuse_e", "reuse_f", "reuse_l", "reuse_x", "g_h", "var_h", "g_e", "var_e", "loop", "if"]
     for _ in range(n):
         if budget[0] <= 0:
             break
         k = rnd.choice(kinds)
-        if k in ("g_k", "g0", "g_h", "loop", "if") and depth >= 3:
+        if k in ("g_k", "g0", "g_h", "g_e", "loop", "if") and depth >= 3:
             k = "probe"
         budget[0] -= 1
-        if k in ("g_k", "g0", "g_h", "loop", "if"):
+        if k in ("g_k", "g0", "g_h", "g_e", "loop", "if"):
             items.append([k, gen_items(rnd, depth + 1, budget)])
         else:
             items.append([k])
@@ -53,6 +53,9 @@ def templates(tier, seed):
         [["var_k"], ["if", [["g_k", [["fwd"]]]]], ["probe"]],
     ]
     fixed += [
+        [["var_k"], ["reuse_l"], ["probe"]], [["reuse_l"], ["probe"]], [["var_k"], ["g_k", [["reuse_l"], ["probe"]]], ["probe"]],
+        [["var_k"], ["g_e", [["probe"]]], ["probe"]], [["g_e", [["probe"]]], ["probe"]], [["var_k"], ["var_e"], ["probe"]], [["var_e"], ["probe"]], [["var_k"], ["g_k", [["var_e"], ["probe"]]], ["probe"]],
+        [["var_k"], ["reuse_x"], ["probe"]], [["reuse_x"], ["reuse"], ["probe"]],
         [["g_k", [["probe"]]], ["probe"]],                                  # first scope opened on an empty stack
         [["reuse"], ["probe"]],
         [["g_k", [["var_j"], ["probe"]]], ["probe"], ["var_k"], ["probe"]],
@@ -169,6 +172,36 @@ def render(items, ren, stack, in_scope_with_fwd=None):
             ren.expect.append(dict(k=lookup(stack, "k"), j=lookup(stack, "j"), h=lookup(stack, "line-gap")))
             stack.pop()
             ren.features.add("reuse")
+        elif k == "var_e":
+            # a definition with the empty string as value is a definition
+            ren.doc.append('<var k=""/>')
+            if ren.has_fwd:
+                ren.features.add("assign-after-fwd")
+            stack[-1]["k"] = "lit:"
+        elif k == "g_e":
+            ren.doc.append('<g k="">')
+            stack.append({"k": "lit:"})
+            render(it[1] if len(it) > 1 else [["probe"]], ren, stack)
+            stack.pop()
+            ren.doc.append("</g>")
+        elif k == "reuse_l":
+            # the template is written after its use (the instantiation is retried once it is known)
+            v = ren.newvar()
+            ren.doc.append(f'<reuse href="#tpll" k="[[{v}]]"/>')
+            stack.append({"k": v})
+            ren.expect.append(dict(k=lookup(stack, "k"), j=lookup(stack, "j"), h=lookup(stack, "line-gap")))
+            stack.pop()
+            ren.has_fwd = True
+            ren.features.add("fwd")
+            ren.features.add("fwd-inside-scope")
+        elif k == "reuse_x":
+            # every attribute of the reuse element is a local of the instance - x and y too
+            v, w = ren.newvar(), ren.newvar()
+            ren.doc.append(f'<reuse href="#tplx" k="[[{v}]]" x="[[{w}]]"/>')
+            stack.append({"k": v, "x": w})
+            ren.expect.append(dict(k=lookup(stack, "k"), j=lookup(stack, "j"), h=lookup(stack, "line-gap"), x=w, y=None))
+            stack.pop()
+            ren.features.add("reuse")
         elif k == "var_h":
             v = ren.newvar()
             ren.doc.append(f'<var line-gap="[[{v}]]"/>')
@@ -255,13 +288,24 @@ def replay_render(items, ren, stack, nv_start):
                 stack.append({"k": nextvar()} if k == "g_k" else {})
                 go(it[1], stack)
                 stack.pop()
+            elif k == "var_e":
+                stack[-1]["k"] = "lit:"
+            elif k == "g_e":
+                stack.append({"k": "lit:"})
+                go(it[1] if len(it) > 1 else [["probe"]], stack)
+                stack.pop()
+            elif k == "reuse_x":
+                v, w = nextvar(), nextvar()
+                stack.append({"k": v, "x": w})
+                ren.expect.append(dict(k=lookup(stack, "k"), j=lookup(stack, "j"), h=lookup(stack, "line-gap"), x=w, y=None))
+                stack.pop()
             elif k == "var_h":
                 stack[-1]["line-gap"] = nextvar()
             elif k == "g_h":
                 stack.append({"line-gap": nextvar()})
                 go(it[1] if len(it) > 1 else [["probe"]], stack)
                 stack.pop()
-            elif k in ("reuse", "reuse_e", "reuse_f"):
+            elif k in ("reuse", "reuse_e", "reuse_f", "reuse_l"):
                 v = nextvar()
                 stack.append({"k": v})
                 ren.expect.append(dict(k=lookup(stack, "k"), j=lookup(stack, "j"), h=lookup(stack, "line-gap")))
@@ -329,7 +373,9 @@ def build(td, wrong=False):
     ren = Ren()
     stack = [{}]
     render(copy.deepcopy(td["prog"]), ren, stack)
-    doc = '<svg><specs><rect id="tpl" wh="1" data-p="$k" data-q="$j" data-r="${line-gap}"/><rect id="tple" wh="1" data-p="$k" data-q="$j" data-r="${line-gap}" data-w="{{#later~w}}"/><rect id="tplf" xy="#later|h 2" wh="1" data-p="$k" data-q="$j" data-r="${line-gap}"/></specs>' + "".join(ren.doc) + '<rect id="later" xy="0" wh="2"/></svg>'
+    doc = ('<svg><specs><rect id="tpl" wh="1" data-p="$k" data-q="$j" data-r="${line-gap}"/><rect id="tple" wh="1" data-p="$k" data-q="$j" data-r="${line-gap}" data-w="{{#later~w}}"/><rect id="tplf" xy="#later|h 2" wh="1" data-p="$k" data-q="$j" data-r="${line-gap}"/>'
+           '<rect id="tplx" wh="1" data-p="$k" data-q="$j" data-r="${line-gap}" data-x="$x" data-y="$y"/></specs>' + "".join(ren.doc) +
+           '<rect id="later" xy="0" wh="2"/><specs><rect id="tpll" wh="1" data-p="$k" data-q="$j" data-r="${line-gap}"/></specs></svg>')
     expect = ren.expect
     feats = ren.features
     # role signatures for known-finding matching.  The unit that is re-evaluated because of a forward reference is the
@@ -337,10 +383,10 @@ def build(td, wrong=False):
     # later item are what a re-evaluation can wrongly observe.
     def has(items, kinds):
         return any(it[0] in kinds or (len(it) > 1 and has(it[1], kinds)) for it in items)
-    first_fwd = next((i for i, it in enumerate(td["prog"]) if has([it], ("fwd", "reuse_e", "reuse_f"))), None)
+    first_fwd = next((i for i, it in enumerate(td["prog"]) if has([it], ("fwd", "reuse_e", "reuse_f", "reuse_l"))), None)
     if first_fwd is not None:
-        assigns = ("var_k", "var_j", "var_h", "chain", "swap")
-        if any(has([it], assigns) for i, it in enumerate(td["prog"]) if i > first_fwd or (has([it], ("fwd", "reuse_e", "reuse_f")))):
+        assigns = ("var_k", "var_j", "var_h", "var_e", "chain", "swap")
+        if any(has([it], assigns) for i, it in enumerate(td["prog"]) if i > first_fwd or (has([it], ("fwd", "reuse_e", "reuse_f", "reuse_l")))):
             feats.add("assign-after-fwd")
     if "assign-after-fwd" in feats:
         role = "C15/deferred-element-sees-later-assignment"
@@ -353,12 +399,13 @@ def build(td, wrong=False):
         if r.status != "ok":
             return [Obl("transform-ok", FAIL, ground=True, note=r.docs[0]["msg"][:200])]
         o = Out(r.output)
-        probes = [e for e in o.all if e.get("data-p") is not None and o.tag(e) == "rect" and e.get("id") not in ("tpl", "tple", "tplf")]
+        probes = [e for e in o.all if e.get("data-p") is not None and o.tag(e) == "rect" and e.get("id") not in ("tpl", "tple", "tplf", "tplx", "tpll")]
         obls = []
         if len(probes) != len(expect):
             return [Obl("probe-count", FAIL, ground=True, note=f"{len(probes)} outputs for {len(expect)} probes")]
         for i, (e, ex) in enumerate(zip(probes, expect)):
-            for nm, attr in (("k", "data-p"), ("j", "data-q"), ("h", "data-r")):
+            names = [("k", "data-p"), ("j", "data-q"), ("h", "data-r")] + ([("x", "data-x"), ("y", "data-y")] if "x" in ex else [])
+            for nm, attr in names:
                 got = e.get(attr)
                 want = ex.get(nm)
                 if wrong and i == len(expect) - 1 and nm == "k":
